@@ -950,7 +950,9 @@ def res_hdd(fs, work):
     root = os.path.join(top, "cur.pvm", "cur.hdd")
     os.makedirs(root)
     cs = 4096
-    cands = [os.path.join(root, "base.hds"), os.path.join(top, "cur.pvm", "orig.hdd", "base.hds"), os.path.join(top, "orig.pvm", "orig.hdd", "base.hds")]
+    # the descriptor names the base image by an absolute path: that file itself if it exists, then the places a moved copy may be in
+    absent = os.path.join(top, "elsewhere", "orig.pvm", "orig.hdd", "base.hds")
+    cands = [absent, os.path.join(root, "base.hds"), os.path.join(top, "cur.pvm", "orig.hdd", "base.hds"), os.path.join(top, "orig.pvm", "orig.hdd", "base.hds")]
     for k, (ex, p) in enumerate(zip(fs, cands)):
         if ex:
             os.makedirs(os.path.dirname(p), exist_ok=True)
@@ -958,7 +960,6 @@ def res_hdd(fs, work):
             vf.materialise(p)
     tvf, _ = enc_hds.build({"ver": 2, "n": 1, "cb": 1, "bat": {0: 0}, "size": 1}, cluster_size=cs, file_id=9, P=2)
     g0, g1 = enc_hds.DEFAULT_TOP, "{aaaaaaaa-1111-2222-3333-444444444444}"
-    absent = "/nonexistent-verif/orig.pvm/orig.hdd/base.hds"
     enc_hds.write_hdd_dir(root, [(0, cs // 512, [(g1, "Compressed", absent), (g0, "Compressed", "top.hds")])],
                           [(g0, g1), (g1, enc_hds.NULL_GUID)], {"top.hds": tvf}, top_guid=g0)
     s = HDD(Path(root)).open()
@@ -982,12 +983,12 @@ def resolution(ctx, thorough):
     work = tempfile.mkdtemp(prefix="verif-c07r-")
     try:
         for st in sts:
-            fs = list(st["fs"]) if isinstance(st["fs"], list) else [st["fs"][k] for k in (1, 2, 3)]
+            fs = list(st["fs"]) if isinstance(st["fs"], list) else [st["fs"][k] for k in (1, 2, 3, 4)]
             key = (tuple(fs), st["optOut"])
             if key in seen:
                 continue
             seen.add(key)
-            for fmt, ncand, fn in (("vhdx", 2, res_vhdx), ("vmdk", 2, res_vmdk), ("hdd", 3, res_hdd), ("qcow2", 1, None)):
+            for fmt, ncand, fn in (("vhdx", 2, res_vhdx), ("vmdk", 2, res_vmdk), ("hdd", 4, res_hdd), ("qcow2", 1, None)):
                 if fmt != "qcow2" and st["optOut"]:
                     continue  # only QCOW2 has an explicit opt-out
                 f = fs[:ncand]
